@@ -193,7 +193,9 @@ type Engine struct {
 	NoLiveness     bool
 	DebugPaths     bool
 	MissingBody    func(fn *ssa.Function) Intrinsic
+	SpawnHook      func(p *Path, callee string)
 	Race           *RaceMon
+	Plumb          *Plumb
 	RaceSites      map[string]bool
 	MaxStack       int
 	StackCuts      int
@@ -521,6 +523,12 @@ func (e *Engine) LoadVal(p *Path, ptr *Term, lay []int) (Value, *Term) {
 				e.Race.Read(p, a+i, c)
 			}
 		}
+		if e.Plumb != nil {
+			c := e.B.Eq(ptr, e.B.BV(64, uint64(a)))
+			for i := range lay {
+				e.Plumb.Read(p, a+i, c)
+			}
+		}
 		if first {
 			val = cur
 			first = false
@@ -554,6 +562,14 @@ func (e *Engine) StoreVal(p *Path, ptr *Term, val Value) *Term {
 			c := e.B.Eq(ptr, e.B.BV(64, uint64(a)))
 			for i := range val {
 				e.Race.Write(p, a+i, c)
+			}
+		}
+	}
+	if e.Plumb != nil {
+		for _, a := range fit {
+			c := e.B.Eq(ptr, e.B.BV(64, uint64(a)))
+			for i := range val {
+				e.Plumb.Write(p, a+i, c)
 			}
 		}
 	}
@@ -1701,7 +1717,27 @@ func (e *Engine) step(p *Path, instr ssa.Instruction) bool {
 	case *ssa.MakeChan:
 		sz := e.Eval(fr, in.Size)[0]
 		if !sz.IsConst() {
-			unsupported("make(chan) with symbolic capacity")
+			lv, ok := B.Leaves(sz)
+			if !ok {
+				unsupported("make(chan) with opaque symbolic capacity")
+			}
+			// case split over the possible capacities
+			base := p.Guard
+			for i, v := range lv {
+				q := p
+				if i < len(lv)-1 {
+					q = p.fork(B.And(base, B.Eq(sz, B.BV(sz.W, v))))
+				} else {
+					q.Guard = B.And(base, B.Eq(sz, B.BV(sz.W, v)))
+				}
+				qf := q.Cur.top()
+				ptr := e.makeChan(q, in.Type().Underlying().(*types.Chan).Elem(), int(v), e.siteKey(q, in, fmt.Sprintf("chan%d", v)))
+				e.finish(qf, in, Value{ptr})
+				if q != p {
+					e.Schedule(q)
+				}
+			}
+			return true
 		}
 		ptr := e.makeChan(p, in.Type().Underlying().(*types.Chan).Elem(), int(sz.Val), e.siteKey(p, in, "chan"))
 		e.finish(fr, in, Value{ptr})
@@ -2330,6 +2366,9 @@ func (e *Engine) dispatchCall(p *Path, cc *ssa.CallCommon, fnv Value, args []Val
 					if e.Race != nil {
 						e.Race.Read(q, o.Base+off+k, e.B.True)
 					}
+					if e.Plumb != nil {
+						e.Plumb.Read(q, o.Base+off+k, e.B.True)
+					}
 				}
 				off += n
 				bind = append(bind, v)
@@ -2383,6 +2422,12 @@ func (e *Engine) builtin(p *Path, bi *ssa.Builtin, cc *ssa.CallCommon, args []Va
 		switch cc.Args[0].Type().Underlying().(type) {
 		case *types.Slice:
 			fin(Value{args[0][2]})
+		case *types.Chan:
+			res := B.BV(64, 0)
+			for _, o := range e.chanObjs(args[0][0]) {
+				res = B.Ite(B.Eq(args[0][0], B.BV(64, uint64(o.Base))), B.BV(64, uint64(o.Cap)), res)
+			}
+			fin(Value{res})
 		default:
 			unsupported("cap of %s", cc.Args[0].Type())
 		}
